@@ -288,6 +288,13 @@ def _sparse_case(sh, cI, cells, perm, collect=False, offset=0.0):
             w_r, n_r = sparse_oracle(ii, jj, v[::-1].copy())
             if nr != n_r or not np.array_equal(O.canon_labels(fr.pixels["localmax"]), O.canon_labels(w_r)):
                 sh.violation("sparse_localmax[history: label, intensities changed in place, label]:partition", case, {"n": int(nr), "expected_n": int(n_r)})
+            else:
+                # a second channel on the same frame (a cleaned / smoothed copy stored next to the raw intensities) labelled under its
+                # own names: the labels are those of the channel that was asked for
+                fr2 = sf.sparse_frame(ii.copy(), jj.copy(), (3, 3), itype=np.uint16, pixels={"intensity": v[::-1].copy(), "clean": v.copy()})
+                nc = sf.sparse_localmax(fr2, label_name="cleanmax", data_name="clean")
+                if nc != n_want or not np.array_equal(O.canon_labels(fr2.pixels["cleanmax"]), O.canon_labels(want)):
+                    sh.violation("sparse_localmax[data_name = a second channel]:labels-are-not-those-of-the-channel-asked-for", case, {"n": int(nc), "expected_n": int(n_want)})
     sh.evaluations += 1
     if n_want >= 2:
         sh.nontrivial += 1
